@@ -193,6 +193,7 @@ vp_fail_hard(int call, int e) {
    not consume a number, POSIX-like reuse of closed numbers is not modelled
    (a number is never reused, so use-after-close is always seen). */
 static int vp_fd_base;
+static int vp_fd_by_name = 1;   /* 0: number = VP_FD0 + vp_fd_base (one open per API call) */
 
 static int
 vp_fd_ok(int fd) {
@@ -249,7 +250,7 @@ vp_open(const char *name, int flags, ...) {
 
   vp_clock++;
   id = vp_name_id(name);
-  slot = vp_fd_base + id;
+  slot = vp_fd_base + (vp_fd_by_name ? id : 0);
   VP_ASSERT(slot >= 0 && slot < VP_MAXFD, "vp-model: descriptor table full");
   VP_ASSERT(!vp_fds[slot].isopen && vp_fds[slot].closes == 0, "vp-model: descriptor number already used");
   vp_opens++;
@@ -545,6 +546,181 @@ vp_fcntl(int fd, int cmd, ...) {
   return -1;
 }
 
+
+/* ---- read / pread / lseek (contents not modelled: where the bytes go) ------ */
+static int vp_read_fd = -1;                 /* descriptor reads are expected on (-1: any open one) */
+static unsigned char *vp_rd_next;           /* where the next chunk must be stored */
+static size_t vp_rd_room;                   /* bytes the caller's buffer still has from vp_rd_next */
+static size_t vp_rd_total;                  /* bytes delivered by read/pread in the current API call */
+static uint64_t vp_rd_off;                  /* file offset the next pread must use */
+static int vp_rd_calls, vp_rd_eof, vp_lseek_calls;
+static uint64_t vp_lseek_off;
+
+static ssize_t
+vp_read_common(int fd, void *buf, size_t count, int positional, uint64_t off) {
+  int k;
+  size_t n;
+
+  vp_clock++;
+  vp_rd_calls++;
+  VP_ASSERT(vp_fd_ok(fd), "read/pread on an open descriptor");
+  VP_ASSERT(vp_read_fd < 0 || fd == vp_read_fd, "read/pread on the descriptor of the file");
+  VP_ASSERT(!vp_hard_fail, "no further read after a failed read inside one call");
+  VP_ASSERT(!vp_rd_eof, "no further read after end-of-file inside one call");
+  VP_ASSERT((unsigned char *)buf == vp_rd_next, "each chunk is stored right behind the previous one");
+  VP_ASSERT(count >= 1 && count <= vp_rd_room && count <= ((size_t)1 << 30), "read count in 1..min(room left, 2^30)");
+  if (positional)
+    VP_ASSERT(off == vp_rd_off, "pread offset advances by the bytes already read");
+
+  k = vp_kind(1);
+  if (k == VP_R_EINTR) {
+    errno = EINTR;
+    return -1;
+  }
+  if (k == VP_R_FAIL) {
+    vp_fail_hard(7, vp_pick_errno());
+    return -1;
+  }
+  if (k == VP_R_SPECIAL) {
+    /* fewer bytes than asked for: 0 = end of file, else a short read */
+    n = vp_size();
+    VP_ASSUME(n < count);
+    if (n == 0) {
+      vp_rd_eof = 1;
+    } else {
+      VP_ASSUME(vp_shorts_left > 0);
+      vp_shorts_left--;
+      vp_saw_short = 1;
+    }
+  } else {
+    n = count;
+  }
+  vp_rd_next += n;
+  vp_rd_room -= n;
+  vp_rd_total += n;
+  vp_rd_off += n;
+  vp_scramble_errno();
+  return (ssize_t)n;
+}
+
+static ssize_t vp_read(int fd, void *buf, size_t count) { return vp_read_common(fd, buf, count, 0, 0); }
+static ssize_t vp_pread(int fd, void *buf, size_t count, off_t off) { return vp_read_common(fd, buf, count, 1, (uint64_t)off); }
+
+static off_t
+vp_lseek(int fd, off_t off, int whence) {
+  int k;
+  vp_clock++;
+  vp_lseek_calls++;
+  VP_ASSERT(vp_fd_ok(fd), "lseek on an open descriptor");
+  k = vp_kind(0);
+  VP_ASSUME(k != VP_R_EINTR);
+  if (k == VP_R_FAIL) {
+    vp_fail_hard(8, vp_pick_errno());
+    return (off_t)-1;
+  }
+  vp_lseek_off = (uint64_t)off;
+  (void)whence;
+  vp_scramble_errno();
+  return off;
+}
+
+/* ---- fstat / stat: symbolic (dev, ino) per underlying file --------------- */
+static uint64_t vp_file_dev[VP_NFILES], vp_file_ino[VP_NFILES];
+static uint64_t vp_file_size[VP_NFILES];
+static int vp_fstat_calls;
+
+static int
+vp_fstat(int fd, struct stat *st) {
+  int k, f;
+  vp_clock++;
+  vp_fstat_calls++;
+  VP_ASSERT(vp_fd_ok(fd), "fstat on an open descriptor");
+  k = vp_kind(0);
+  VP_ASSUME(k != VP_R_EINTR);
+  if (k == VP_R_FAIL) {
+    vp_fail_hard(5, vp_pick_errno());
+    return -1;
+  }
+  f = vp_name_file[vp_fd_name(fd)];
+  st->st_dev = (dev_t)vp_file_dev[f];
+  st->st_ino = (ino_t)vp_file_ino[f];
+  st->st_size = (off_t)vp_file_size[f];
+  st->st_mode = S_IFREG | 0644;
+  vp_scramble_errno();
+  return 0;
+}
+
+static int
+vp_stat(const char *path, struct stat *st) {
+  int k, f;
+  vp_clock++;
+  f = vp_name_file[vp_name_id(path)];
+  k = vp_kind(0);
+  VP_ASSUME(k != VP_R_EINTR);
+  if (k == VP_R_FAIL) {
+    vp_fail_hard(8, vp_pick_errno());
+    return -1;
+  }
+  st->st_dev = (dev_t)vp_file_dev[f];
+  st->st_ino = (ino_t)vp_file_ino[f];
+  st->st_size = (off_t)vp_file_size[f];
+  st->st_mode = S_IFREG | 0644;
+  vp_scramble_errno();
+  return 0;
+}
+
+/* ---- path operations: unlink / rename / mkdir / rmdir ---------------------- */
+static int vp_unlink_calls, vp_rename_calls, vp_mkdir_calls, vp_rmdir_calls;
+static int vp_unlink_name = -1, vp_rename_from = -1, vp_rename_to = -1, vp_mkdir_name = -1, vp_mkdir_mode, vp_rmdir_name = -1;
+static unsigned vp_unlink_tick;
+
+static int
+vp_path_result(void) {
+  int k = vp_kind(0);
+  VP_ASSUME(k != VP_R_EINTR);
+  if (k == VP_R_FAIL) {
+    vp_fail_hard(8, vp_pick_errno());
+    return -1;
+  }
+  vp_scramble_errno();
+  return 0;
+}
+
+static int
+vp_unlink(const char *path) {
+  vp_clock++;
+  vp_unlink_calls++;
+  vp_unlink_name = vp_name_id(path);
+  vp_unlink_tick = vp_clock;
+  return vp_path_result();
+}
+
+static int
+vp_rename(const char *from, const char *to) {
+  vp_clock++;
+  vp_rename_calls++;
+  vp_rename_from = vp_name_id(from);
+  vp_rename_to = vp_name_id(to);
+  return vp_path_result();
+}
+
+static int
+vp_mkdir(const char *path, mode_t mode) {
+  vp_clock++;
+  vp_mkdir_calls++;
+  vp_mkdir_name = vp_name_id(path);
+  vp_mkdir_mode = (int)mode;
+  return vp_path_result();
+}
+
+static int
+vp_rmdir(const char *path) {
+  vp_clock++;
+  vp_rmdir_calls++;
+  vp_rmdir_name = vp_name_id(path);
+  return vp_path_result();
+}
+
 /* ---- the renaming ------------------------------------------------------------ */
 #define open vp_open
 #define close vp_close
@@ -553,5 +729,14 @@ vp_fcntl(int fd, int cmd, ...) {
 #define fdatasync vp_fdatasync
 #define fcntl vp_fcntl
 #define memcpy vp_memcpy
+#define read vp_read
+#define pread vp_pread
+#define lseek vp_lseek
+#define fstat vp_fstat
+#define stat(p, s) vp_stat(p, s)
+#define unlink vp_unlink
+#define rename vp_rename
+#define mkdir vp_mkdir
+#define rmdir vp_rmdir
 
 #endif /* VP_ENVUNIX_LIBC_H */
